@@ -84,7 +84,7 @@ CLAIMED["C06"] = dict(engine="writer", design="4 C06",
         "comment with {n} = len(raw.splitlines()) then the raw text verbatim; str.splitlines proved against a declarative line grammar. "
         "Tied to /repo by differential correspondence through writer.write / write_string and by an independent Python oracle "
         "that also checks the format object is unchanged.",
-   note="the 'format object unchanged' clause is proved at heap level over the framework model of C07 (C06_format_unchanged, with the executable deep copy, no hypothesis on the copy) and checked by the harness oracle; str.splitlines and str.format "
+   note="C06_write_no_cr: the output holds a carriage return only if the library or the format does; the 'format object unchanged' clause is proved at heap level over the framework model of C07 (C06_format_unchanged, with the executable deep copy, no hypothesis on the copy) and checked by the harness oracle; str.splitlines and str.format "
         "({n}, {{ }} templates only) are CPython oracles modelled and compared on every run (ops 62/63); templates outside that class are "
         "skipped; VAL_SEP and the default format are regenerated from the running module (val_sep = ' = ' is a Qed)",
    technique="Coq proof + differential correspondence via extracted model + independent Python oracle")
@@ -95,7 +95,7 @@ CLAIMED["C20"] = dict(engine="stack", design="4 C20",
         "positions. Tied to /repo by correspondence with order-sensitive probe middlewares and shipped middlewares in every argument "
         "position (lists, tuples, generators, iterators), real temp files in utf-8/latin-1/gbk/utf-16 with CRLF, path/StringIO/file-object "
         "targets, and by an oracle that composes Splitter.split, mw.transform in order and writer.write manually.",
-   note="the text layer under parse_file / write_file is MODELLED for utf-8, latin-1 and utf-16 (Model/TextIO.v: strict codecs, byte order mark, universal newlines; C20_text_*: what is written is read back up to newline translation, exactly when there is no carriage return, and the decoders accept one spelling only) and compared with CPython's open() on every run (stream textio, ops 180/181); "
+   note="the text layer under parse_file / write_file is MODELLED for utf-8, latin-1 and utf-16 (Model/TextIO.v: strict codecs, byte order mark, universal newlines; C20_text_*: what is written is read back up to newline translation, exactly when there is no carriage return, the decoders accept one spelling only, decoding / newline translation / encoding are compositional at the boundaries where a chunked reader or a piecewise writer cuts, a CR-free utf-8 file is a byte-level fixpoint, and - composed with the writer model through C06_write_no_cr - what write_file writes for a library and format without carriage returns is read back exactly) and compared with CPython's open() on every run (stream textio, ops 180/181); "
         "partial: gbk, the file system, the splitter and the shipped middlewares enter as oracles "
         "(finite graphs supplied per case by the manual composition; a missing row is a disagreement); previous_block aliases are "
         "compared as stubs; theorems are close to definitional by design - the correspondence pins the Python to them",
